@@ -37,5 +37,6 @@ def run(ctx):
     scs += cc.slow_reader_scenarios(plain, rnd, 5 if quick else 40)
     scs += cc.newest_scenarios(plain + txn, rnd, 40 if quick else 400)
     scs += cc.close_scenarios(plain, rnd, 4 if quick else 30)
+    scs += cc.leaderless_scenarios(plain, rnd, 4 if quick else 30)
     mc = [("Consumer", "Consumer.quick.cfg")] if quick else [("Consumer", "Consumer.quick.cfg"), ("Consumer", "Consumer.thorough.cfg")]
     return cc.check(ctx, "C03", cc.CLAUSES["C03"], scs, mc, gen)
